@@ -36,6 +36,15 @@ pub fn run(tier: Tier) -> i32 {
             }
         }
     }
+    let mut k = 0usize;
+    for i in all.iter().filter(|i| i.label.contains(" byte ")) {
+        k += 1;
+        if k % tier.pick(4, 1) == 0 {
+            let mut o = i.opts;
+            o.allow_incomplete = true;
+            extra.push(c05::Input { label: format!("{} [allow_incomplete]", i.label), bytes: i.bytes.clone(), opts: o, max_sym: 0 });
+        }
+    }
     let mut ins: Vec<&c05::Input> = all.iter().filter(|i| i.label.contains(" byte ") || i.label.contains("trailing") || i.label.contains("+size") || i.label.contains("repo file")).collect();
     ins.extend(extra.iter());
     let t0 = Instant::now();
